@@ -6,6 +6,7 @@ f26_0:
   call f9_1
   call f18_3
   lea d_f26_0(%rip),%rax
+  mov wvsv0(%rip),%rax
   ret
 .section .data.d_f26_0,"aw",@progbits
 .globl d_f26_0
@@ -18,4 +19,6 @@ f26_1:
   ret
   call f25_1
   call f27_0
+  mov wvsv0(%rip),%rax
+  mov wvsv1(%rip),%rax
   ret
